@@ -33,6 +33,11 @@ Record event := { e_dt : Q; e_acc : bool; e_pos : Q; e_guess : Q }.
 
 Definition estimate := nat -> Q -> Q -> Q.
 
+(* result of one controller iteration (the generated step functions of Gen/StepCtlGen.v return it):
+   Reject g : trial thrown away, next guess g, same position;  Sub g x : trial accepted, next guess g at position x;
+   Final g : trial accepted, the call returns with guess g *)
+Inductive outcome := Reject (g : Q) | Sub (g pos : Q) | Final (g : Q).
+
 Definition consE (e : event) (r : option (list event * Q)) : option (list event * Q) :=
   match r with Some (tr, g) => Some (e :: tr, g) | None => None end.
 
@@ -111,7 +116,7 @@ Fixpoint tdrk_loop (fuel : nat) (est : estimate) (target : Q) (it : nat) (guess 
         Some ([ev true], min_abs (dt * p) guess)
       else
         (* guess_dt *= min(p, p_max); evolved_dt += dt *)
-        consE (ev true) (tdrk_loop f est target (S it) (guess * pymin p tdrk_p_max) (dt + evolved))
+        consE (ev true) (tdrk_loop f est target (S it) (guess * pymin p tdrk_p_max) (evolved + dt))
   end.
 Definition tdrk_run fuel est target guess := tdrk_loop fuel est target 0 guess 0.
 
